@@ -153,8 +153,13 @@ def one(task):
 
 
 def main():
-    args = [a for a in sys.argv[1:] if not a.startswith('--')]
+    argv = sys.argv[1:]
     jobs = 16
+    if '--jobs' in argv:
+        i = argv.index('--jobs')
+        jobs = int(argv[i + 1])
+        del argv[i:i + 2]
+    args = [a for a in argv if not a.startswith('--')]
     props = args or [c['property_id'] for c in json.load(open('/verif/MANIFEST.json'))['checks']]
     src = engine.Source()
     tasks = []
